@@ -151,6 +151,10 @@ func (m *MemFS) walkNode(ctx context.Context, dir string, n *MNode, fn gofs.Walk
 	st.Path = p
 	err := fn(p, &fsutil.DirEntryInfo{Stat: st}, nil)
 	if err != nil {
+		// the real fs.Walk converts a not-exist / not-a-directory error of the callback into SkipDir
+		if errors.Is(err, os.ErrNotExist) || errors.Is(err, syscall.ENOTDIR) {
+			err = filepath.SkipDir
+		}
 		if err == filepath.SkipDir {
 			if n.IsDir() {
 				return nil
